@@ -270,6 +270,21 @@ func (idx *IVFIndex) Add(vector VectorNode) error {
 		return err
 	}
 
+	// Re-adding a removed ID is an update: drop the stale soft-deleted entry
+	// so that the new vector is visible and survives the next Flush.
+	if id := vector.ID(); idx.deletedNodes.Contains(id) {
+		for listIdx, list := range idx.lists {
+			kept := list[:0]
+			for _, v := range list {
+				if v.ID() != id {
+					kept = append(kept, v)
+				}
+			}
+			idx.lists[listIdx] = kept
+		}
+		idx.deletedNodes.Remove(id)
+	}
+
 	// Find the nearest centroid (call utility directly since we already hold write lock)
 	nearestCentroidIdx := FindNearestCentroidIndex(vector.Vector(), idx.centroids, idx.distance)
 
